@@ -250,6 +250,80 @@ async fn create_on(node: &Node, parent_hash: SaitoHash, ts: u64, creator: u64, t
     }
 }
 
+/// what a HOSTILE producer can do: the steps of `Block::create` (block.rs:585-876) on the node's own chain, with every
+/// consensus value computed by the real `generate_consensus_values`, but WITHOUT the producer-side guard that refuses
+/// to emit a block in which one output is consumed twice. The transactions are kept in the given order.
+async fn create_hostile(node: &Node, parent: &Block, ts: u64, creator: u64, txs: Vec<Transaction>, gt: Option<Transaction>) -> Result<Block, String> {
+    let (pk, sk) = key(creator);
+    let mut block = Block::new();
+    block.id = parent.id + 1;
+    block.previous_block_hash = parent.hash;
+    block.timestamp = ts;
+    block.creator = pk;
+    block.previous_block_unpaid = if gt.is_some() { 0 } else { parent.total_fees };
+    if let Some(mut g) = gt {
+        g.generate(&pk, 0, 0);
+        block.transactions.push(g);
+    }
+    for t in txs {
+        let t = guarded(move || {
+            let mut t = t;
+            t.generate(&pk, 0, 0);
+            t
+        })
+        .map_err(|p| format!("panic:{}", p))?;
+        block.transactions.push(t);
+    }
+    let cv = guarded_async(block.generate_consensus_values(&node.blockchain, &node.storage, &node.cfg)).await.map_err(|p| format!("panic:{}", p))?;
+    let mut cv = cv;
+    block.cv = cv.clone();
+    block.total_fees_new = cv.total_fees_new;
+    block.total_fees_atr = cv.total_fees_atr;
+    block.total_fees_cumulative = cv.total_fees_cumulative;
+    block.total_fees = block.total_fees_new.wrapping_add(block.total_fees_atr);
+    block.avg_total_fees = cv.avg_total_fees;
+    block.avg_total_fees_new = cv.avg_total_fees_new;
+    block.avg_total_fees_atr = cv.avg_total_fees_atr;
+    block.total_payout_routing = cv.total_payout_routing;
+    block.total_payout_mining = cv.total_payout_mining;
+    block.total_payout_treasury = cv.total_payout_treasury;
+    block.total_payout_graveyard = cv.total_payout_graveyard;
+    block.total_payout_atr = cv.total_payout_atr;
+    block.avg_payout_routing = cv.avg_payout_routing;
+    block.avg_payout_mining = cv.avg_payout_mining;
+    block.avg_payout_treasury = cv.avg_payout_treasury;
+    block.avg_payout_graveyard = cv.avg_payout_graveyard;
+    block.avg_payout_atr = cv.avg_payout_atr;
+    block.avg_fee_per_byte = cv.avg_fee_per_byte;
+    block.fee_per_byte = cv.fee_per_byte;
+    block.avg_nolan_rebroadcast_per_block = cv.avg_nolan_rebroadcast_per_block;
+    block.burnfee = cv.burnfee;
+    block.difficulty = cv.difficulty;
+    block.treasury = parent.treasury.wrapping_add(cv.total_payout_treasury).wrapping_sub(cv.total_payout_atr);
+    block.graveyard = parent.graveyard.wrapping_add(cv.total_payout_graveyard);
+    let bid = block.id;
+    for (index, tx) in cv.rebroadcasts.iter_mut().enumerate() {
+        tx.generate(&pk, index as u64, bid);
+    }
+    block.transactions.append(&mut cv.rebroadcasts);
+    if let Some(mut fee_tx) = cv.fee_transaction.take() {
+        fee_tx.hash_for_signature = Some(hash(&fee_tx.serialize_for_signature()));
+        fee_tx.sign(&sk);
+        block.add_transaction(fee_tx);
+    }
+    block.merkle_root = block.generate_merkle_root(false, false);
+    block.generate_pre_hash();
+    block.sign(&sk);
+    // the wire form is what a peer receives (nothing computed on the producer's side survives)
+    let bytes = block.serialize_for_net(saito_core::core::consensus::block::BlockType::Full);
+    let mut b = Block::deserialize_from_net(&bytes).map_err(|e| format!("err:{}", e))?;
+    b.generate_pre_hash();
+    b.generate_hash();
+    Ok(b)
+}
+
+pub const HOSTILE: [&str; 3] = ["control", "output-spent-by-two-transactions", "output-spent-by-transaction-and-rebroadcast"];
+
 /// in-window spendable value, number of such outputs, and the supply of the node, all in u128
 pub fn node_supply(n: &Node, gp: u64) -> Option<(u128, usize, u128)> {
     let tip = n.blockchain.get_latest_block()?;
@@ -712,6 +786,147 @@ impl Sim {
         txs
     }
 
+    /// last step of a history: node 0 acts as a hostile producer (`create_hostile`) and offers the block to node 1.
+    /// The theorems assume that the inputs consumed by one block are pairwise distinct (`Honest.insDistinct`); this is
+    /// the validation side of that hypothesis: a block consuming one output twice must not be accepted.
+    async fn hostile(&mut self, variant: usize, emit: &mut dyn FnMut(&str, &str), ctx: &serde_json::Value) {
+        let name = HOSTILE[variant];
+        if self.dead[0] || self.dead[1] {
+            return;
+        }
+        let parent = match self.nodes[0].blockchain.get_latest_block() {
+            Some(p) => p.clone(),
+            None => return,
+        };
+        let newid = parent.id + 1;
+        let avail = self.spendable(0, newid);
+        let mut txs = vec![];
+        let mut target: Option<[u8; 59]> = None;
+        match name {
+            "control" => {
+                if let Some(u) = avail.iter().find(|u| u.slip.block_id + self.gp >= newid).cloned() {
+                    let (o, a) = (u.owner, u.slip.amount);
+                    txs.push(self.make_value_tx(vec![u], vec![(o, a)], newid * 1000 + 901));
+                }
+            }
+            "output-spent-by-two-transactions" => {
+                if let Some(u) = avail.iter().find(|u| u.slip.block_id + self.gp >= newid).cloned() {
+                    let (o, a) = (u.owner, u.slip.amount);
+                    target = Some(u.slip.utxoset_key);
+                    txs.push(self.make_value_tx(vec![u.clone()], vec![(o, a)], newid * 1000 + 902));
+                    txs.push(self.make_value_tx(vec![u], vec![((o % (NKEYS - 1)) + 1, a)], newid * 1000 + 903));
+                }
+            }
+            _ => {
+                // an output that leaves the window with this block (block.rs:1477: the pruned block is newid - gp - 1 ... its
+                // unspent outputs are rebroadcast by consensus), largest first so that it is not collected as dust
+                let mut old: Vec<Utxo> = self.all_unspent(0).into_iter().filter(|u| u.slip.block_id + self.gp + 1 == newid).collect();
+                old.sort_by_key(|u| std::cmp::Reverse(u.slip.amount));
+                if let Some(u) = old.first().cloned() {
+                    let (o, a) = (u.owner, u.slip.amount);
+                    target = Some(u.slip.utxoset_key);
+                    txs.push(self.make_value_tx(vec![u], vec![((o % (NKEYS - 1)) + 1, a)], newid * 1000 + 904));
+                }
+            }
+        }
+        if txs.is_empty() {
+            emit("H", &format!("hostile:{}:not-applicable", name));
+            return;
+        }
+        if self.stake > 0 {
+            // the block must carry its BlockStake transaction, funded by outputs the other transactions do not touch
+            let used: HashSet<[u8; 59]> = txs.iter().flat_map(|t| t.from.iter().map(|s| s.utxoset_key)).collect();
+            let saved = self.stake;
+            let mut found = None;
+            let avail2: Vec<Utxo> = avail.iter().filter(|u| !used.contains(&u.slip.utxoset_key)).cloned().collect();
+            for owner in 1..NKEYS {
+                let mut mine: Vec<Utxo> = avail2.iter().filter(|u| u.owner == owner).cloned().collect();
+                mine.sort_by_key(|u| std::cmp::Reverse(u.slip.amount));
+                if let Some(u) = mine.first() {
+                    if u.slip.amount >= saved {
+                        found = Some(u.clone());
+                        break;
+                    }
+                }
+            }
+            match found {
+                Some(u) => {
+                    let mut tx = Transaction::default();
+                    tx.transaction_type = TransactionType::BlockStake;
+                    tx.timestamp = 1_700_000_000_000 + newid;
+                    tx.from.push(u.slip.clone());
+                    let mut st = Slip::default();
+                    st.public_key = key(u.owner).0;
+                    st.amount = saved;
+                    st.slip_type = SlipType::BlockStake;
+                    tx.to.push(st);
+                    if u.slip.amount > saved {
+                        let mut c = Slip::default();
+                        c.public_key = key(u.owner).0;
+                        c.amount = u.slip.amount - saved;
+                        c.slip_type = SlipType::Normal;
+                        tx.to.push(c);
+                    }
+                    tx.sign(&key(u.owner).1);
+                    txs.push(tx);
+                }
+                None => {
+                    emit("H", &format!("hostile:{}:not-applicable", name));
+                    return;
+                }
+            }
+        }
+        let want_gt = !self.density_ok(&parent.hash, false);
+        let gt = if want_gt { Some(gt_tx(&mut self.rng, &parent, key(3).0, 3)) } else { None };
+        let b = match create_hostile(&self.nodes[0], &parent, parent.timestamp + 260, 1, txs, gt).await {
+            Ok(b) => b,
+            Err(e) => {
+                emit("H", &format!("hostile:{}:create-{}", name, if e.starts_with("panic") { "panic" } else { "error" }));
+                return;
+            }
+        };
+        if let Some(k) = target {
+            let spenders = b.transactions.iter().filter(|t| t.from.iter().any(|s| s.get_utxoset_key() == k)).count();
+            if spenders < 2 {
+                emit("H", &format!("hostile:{}:not-applicable", name));
+                return;
+            }
+        }
+        let r = guarded_async(self.nodes[1].add_block(b.clone())).await;
+        let cls = match &r {
+            Ok(r) => add_result_class(r).to_string(),
+            Err(_) => "panic".to_string(),
+        };
+        emit("H", &format!("hostile:{}:{}", name, cls));
+        if name != "control" {
+            let on_chain = self.nodes[1].blockchain.blocks.contains_key(&b.hash);
+            if cls == "added_lc" || cls == "added_side" || (cls == "panic" && on_chain) {
+                let sup = node_supply(&self.nodes[1], self.gp).map(|x| x.2);
+                emit("M", &format!("C02/block-consuming-one-output-twice-accepted/{}\tthe node accepted ({}) block {} in which one output is consumed twice; supply now {:?}, issued {}\t{}", name, cls, b.id, sup, self.issued, serde_json::json!({"history": ctx, "block_id": b.id, "variant": name})));
+            }
+        }
+        self.dead[1] = true;
+    }
+
+    /// every spendable value output of node `n`, in or out of the window
+    fn all_unspent(&self, n: usize) -> Vec<Utxo> {
+        let owner = owner_lookup(NKEYS);
+        let mut v: Vec<Utxo> = vec![];
+        let mut ks: Vec<_> = self.nodes[n].blockchain.utxoset.iter().filter(|(_, v)| **v).map(|(k, _)| *k).collect();
+        ks.sort();
+        for k in ks {
+            if let Ok(s) = Slip::parse_slip_from_utxokey(&k) {
+                if s.slip_type == SlipType::Bound || s.slip_type == SlipType::BlockStake || s.amount == 0 {
+                    continue;
+                }
+                if let Some(o) = owner(&s.public_key) {
+                    v.push(Utxo { slip: s, owner: o });
+                }
+            }
+        }
+        v
+    }
+
     /// node `n` produces a block on its own tip and adds it to its own chain
     async fn produce(&mut self, n: usize, want_gt: Option<bool>, txs_override: Option<Vec<Transaction>>, gt_zero_key: bool, fee_profile: u8, dt: u64,
                      emit: &mut dyn FnMut(&str, &str), ctx: &serde_json::Value) -> Option<SaitoHash> {
@@ -1005,8 +1220,13 @@ pub async fn run_history(spec: &HistSpec, index: usize, emit: &mut dyn FnMut(&st
             if !sim.dead[0] && !sim.dead[1] && sim.last_own != "invalid" {
                 let same_tip = sim.nodes[0].tip().map(|t| t.1) == sim.nodes[1].tip().map(|t| t.1);
                 if same_tip {
-                    sim.tamper_next = Some(index % TAMPER_FIELDS.len());
-                    sim.produce(0, Some(true), None, false, fee_profile, 260, emit, &ctx).await;
+                    let k = if spec.kind == "hostile" { TAMPER_FIELDS.len() + index % HOSTILE.len() } else { index % (TAMPER_FIELDS.len() + 2 * HOSTILE.len()) };
+                    if k < TAMPER_FIELDS.len() {
+                        sim.tamper_next = Some(k);
+                        sim.produce(0, Some(true), None, false, fee_profile, 260, emit, &ctx).await;
+                    } else {
+                        sim.hostile((k - TAMPER_FIELDS.len()) % HOSTILE.len(), emit, &ctx).await;
+                    }
                 }
             }
         }
@@ -1061,6 +1281,14 @@ pub fn histories(seed: u64, tier: &str) -> Vec<HistSpec> {
         // every third honest history runs with a social stake requirement (a BlockStake transaction in every block)
         let stake = if i % 3 == 1 { [500u64, 5000, 40_000][(i / 3) % 3] } else { 0 };
         v.push(HistSpec { kind: "honest", gp: [5u64, 8, 12][(i + i / 3) % 3], len, seed: r.next(), stake });
+    }
+    // short histories that end with a hostile producer's block (see `Sim::hostile`); the window has just wrapped, so
+    // outputs of the first blocks are still unspent and due for rebroadcast
+    let nh = if thorough { 240 } else { 36 };
+    for i in 0..nh {
+        let gp = [5u64, 8][i % 2];
+        let stake = if i % 5 == 4 { 500 } else { 0 };
+        v.push(HistSpec { kind: "hostile", gp, len: (gp + r.range(0, 5)) as usize, seed: r.next(), stake });
     }
     let n2 = if thorough { 60 } else { 6 };
     for i in 0..n2 {
